@@ -122,7 +122,7 @@ func (w *dnsWorld) c08AfterOp(op *dnsOp) {
 									cls = "@concurrent-lookups"
 								}
 							}
-							if caseCls != "" {
+							if caseCls != "" && cls == "" {
 								cls = "@" + caseCls
 							}
 							s.Failf("c08-ttl-overstated"+cls, "client c%d asked %v at %v and the cached answer a%d shows TTL %ds although only %ds of its lifetime remain (inserted %v, lifetime %v); slack allowed: 15 s",
